@@ -179,11 +179,13 @@ def run_exploit(sd):
     from adcgen.symmetry import Permutation
     shape = rng.choice(["ia", "ij,ab", "ia,jb", "ijab", "ijk", "i,j"])
     names = shape.replace(",", "")
-    T = get_symbols(names)
+    spin = rng.random() < 0.25            # spin-labelled target indices, target_spin given
+    tspin = "".join(rng.choice("ab") for _ in names) if spin else None
+    T = get_symbols(names, tspin) if spin else get_symbols(names)
     denom = rng.random() < 0.2
-    g = TermGen(rng, spaces="ov", n_tensors=(2, 3), max_contracted=4,
+    g = TermGen(rng, spaces="ov", spin=spin, n_tensors=(2, 3), max_contracted=4 if not spin else 3,
                 names=["V", "f", "t1", "t2", "Y", "d0", "c"] + (["D"] if denom else []), exclude=())
-    twin = len(names) == 4 and names != "ijk" and rng.random() < 0.35
+    twin = len(names) == 4 and names != "ijk" and rng.random() < 0.35 and not spin
     try:
         t0 = _twin_term(rng, T) if twin else g.term_with_target(T)
     except RuntimeError:
@@ -191,7 +193,7 @@ def run_exploit(sd):
     # symmetrise over a random subgroup generated by 1-2 transpositions within spaces
     by_space = {}
     for s in T:
-        by_space.setdefault(s.space, []).append(s)
+        by_space.setdefault((s.space, s.spin), []).append(s)
     gens = []
     for sp, lst in by_space.items():
         if len(lst) >= 2 and rng.random() < 0.8:
@@ -213,13 +215,15 @@ def run_exploit(sd):
     if any(set(t.target) != set(T) for t in e.terms):
         return {"status": "skipped", "item": sd}
     bks = rng.choice([0, 0, 1, -1]) if "," in shape and len(shape.split(",")[0]) == len(shape.split(",")[1]) else 0
+    if spin:
+        bks = 0
     anti = rng.random() < 0.7
     arg_t = rng.choice([shape, None]) if not bks else shape
-    res = {"item": sd, "in": str(e), "target": shape, "bra_ket_sym": bks, "antisym": anti,
+    res = {"item": sd, "in": str(e), "target": shape + (f" spin {tspin}" if spin else ""), "bra_ket_sym": bks, "antisym": anti,
            "status": "equal"}
     try:
-        parts = exploit_perm_sym(e.copy(), target_indices=arg_t, bra_ket_sym=bks,
-                                 antisymmetric_result_tensor=anti)
+        parts = exploit_perm_sym(e.copy(), target_indices=arg_t, target_spin=tspin if arg_t else None,
+                                 bra_ket_sym=bks, antisymmetric_result_tensor=anti)
     except Exception as exc:
         from adcgen.misc import Inputerror
         if isinstance(exc, (Inputerror, NotImplementedError)):
@@ -236,7 +240,7 @@ def run_exploit(sd):
     res["out"] = str({str(k): str(v) for k, v in parts.items()})[:400]
     res["n_in"], res["n_out"] = len(e), n_terms
     res["nontrivial"] = any(k for k in parts)
-    oc = _cmp(e.sympy, B, T, res)
+    oc = _cmp(e.sympy, B, T, res, spin)
     res["status"] = oc.status
     res["witness"] = oc.witness
     return res
